@@ -128,6 +128,110 @@ theorem no_adjacent_dups (vs : List Ver) (a b : Ver) (l1 l2 : List Ver)
       simp only [List.cons_append, List.cons.injEq] at heq
       exact (dedupFrom_noadj v.2 vs).2 a b l1 l2 heq.2
 
+/-! ## a compaction that stops half way (killed between flushes) -/
+
+/-- one removal of the compactor: a version whose content equals its immediate predecessor's is dropped. -/
+inductive DropDup : List Ver → List Ver → Prop
+  | here (a b : Ver) (l : List Ver) (h : b.2 = a.2) : DropDup (a :: b :: l) (a :: l)
+  | there (a : Ver) (l l' : List Ver) (h : DropDup l l') : DropDup (a :: l) (a :: l')
+
+/-- any number of removals: the state a compaction leaves when it is killed after some of its flushes. -/
+inductive Partial : List Ver → List Ver → Prop
+  | refl (l : List Ver) : Partial l l
+  | step (l l' l'' : List Ver) (h : DropDup l l') (t : Partial l' l'') : Partial l l''
+
+theorem dropDup_sublist {l l' : List Ver} (h : DropDup l l') : l'.Sublist l := by
+  induction h with
+  | here a b l _ => exact (List.Sublist.cons _ (List.Sublist.refl _)).cons₂ _
+  | there a l l' _ ih => exact ih.cons₂ _
+
+theorem lastC_congr (d e : Ent) (l : List Ver) (h : l ≠ []) : lastC d l = lastC e l := by
+  cases l with
+  | nil => exact absurd rfl h
+  | cons v vs => rfl
+
+theorem dropDup_lastC {l l' : List Ver} (h : DropDup l l') (d : Ent) : lastC d l' = lastC d l := by
+  induction h generalizing d with
+  | here a b l hb =>
+    simp only [lastC]
+    cases l with
+    | nil => simp [lastC, hb]
+    | cons v vs => rfl
+  | there a l l' _ ih => simp only [lastC]; exact ih a.2
+
+theorem dropDup_dedupFrom {l l' : List Ver} (h : DropDup l l') (prev : Ent) : dedupFrom prev l' = dedupFrom prev l := by
+  induction h generalizing prev with
+  | here a b l hb =>
+    simp only [dedupFrom]
+    by_cases ha : a.2 = prev
+    · simp [ha, hb]
+    · simp [ha, hb]
+  | there a l l' _ ih =>
+    simp only [dedupFrom]
+    by_cases ha : a.2 = prev
+    · simp only [ha, if_true]; exact ih prev
+    · simp only [ha, if_false]; rw [ih a.2]
+
+/-- the versions recorded at or before an instant. -/
+def upTo (t : Nat) (l : List Ver) : List Ver := l.filter (fun v => decide (v.1 ≤ t))
+
+theorem dropDup_upTo {l l' : List Ver} (h : DropDup l l') (hs : l.Pairwise (fun x y => x.1 ≤ y.1)) (t : Nat) :
+    upTo t l' = upTo t l ∨ DropDup (upTo t l) (upTo t l') := by
+  induction h with
+  | here a b l hb =>
+    have hab : a.1 ≤ b.1 := (List.pairwise_cons.1 hs).1 b List.mem_cons_self
+    by_cases hbt : b.1 ≤ t
+    · right
+      have hat : a.1 ≤ t := Nat.le_trans hab hbt
+      simp only [upTo, List.filter_cons, hat, hbt, decide_true, if_true]
+      exact .here a b _ hb
+    · left
+      simp [upTo, List.filter_cons, hbt]
+  | there a l l' _ ih =>
+    rcases ih (List.pairwise_cons.1 hs).2 with h | h
+    · left
+      simp only [upTo, List.filter_cons] at h ⊢
+      rw [h]
+    · by_cases hat : a.1 ≤ t
+      · right
+        simp only [upTo, List.filter_cons, hat, decide_true, if_true]
+        exact .there a _ _ h
+      · right
+        simp only [upTo, List.filter_cons, hat, decide_false, Bool.false_eq_true, if_false]
+        exact h
+
+theorem dropDup_lastContent {l l' : List Ver} (h : DropDup l l') : lastContent l' = lastContent l := by
+  cases h with
+  | here a b l hb =>
+    simp only [lastContent, lastC]
+    cases l with
+    | nil => simp [lastC, hb]
+    | cons v vs => rfl
+  | there a l l' h => simp only [lastContent]; rw [dropDup_lastC h]
+
+/-- **T-C12-4 (killed between flushes)**: whatever subset of its removals a compaction got to apply before it
+died, (1) the history has lost nothing but versions (it is a sublist, order kept), (2) the latest content of the
+entity is unchanged, (3) the content visible at every past instant is unchanged (for a history with ascending
+times), and (4) running the compaction again to the end gives exactly the state an undisturbed compaction gives. -/
+theorem partial_compaction_invisible {l l' : List Ver} (h : Partial l l') (hs : l.Pairwise (fun x y => x.1 ≤ y.1)) :
+    l'.Sublist l ∧ lastContent l' = lastContent l ∧ (∀ t, lastContent (upTo t l') = lastContent (upTo t l))
+    ∧ dedupAdj l' = dedupAdj l := by
+  induction h with
+  | refl l => exact ⟨List.Sublist.refl _, rfl, fun _ => rfl, rfl⟩
+  | step l l1 l2 hd _ ih =>
+    have hsub := dropDup_sublist hd
+    obtain ⟨i1, i2, i3, i4⟩ := ih (hs.sublist hsub)
+    refine ⟨i1.trans hsub, i2.trans (dropDup_lastContent hd), ?_, ?_⟩
+    · intro t
+      rw [i3 t]
+      rcases dropDup_upTo hd hs t with h | h
+      · rw [h]
+      · exact dropDup_lastContent h
+    · rw [i4]
+      cases hd with
+      | here a b l hb => simp [dedupAdj, dedupFrom, hb]
+      | there a l l' h => simp only [dedupAdj]; rw [dropDup_dedupFrom h]
+
 /-! ## tie to the Go source (regenerated facts) -/
 open Hub.Facts.Compact in
 theorem facts_shape :
@@ -139,6 +243,11 @@ theorem facts_shape :
     ∧ flushOrder = ["strategy.flush", "txn.Get", "txn.Delete", "txn.Set"]
     ∧ flushEveryTime = "bufferedKeys, err := strategy.flush(txn)"
     ∧ resetAfterFlush = ["reset"] := by decide
+
+-- a partial compaction of 1,2,2,1,1: only the first duplicate was removed before the kill
+example : let a : Ent := ⟨1, false, [], "1"⟩; let b : Ent := ⟨1, false, [], "2"⟩
+    Partial [(1, a), (2, b), (3, b), (4, a), (5, a)] [(1, a), (2, b), (4, a), (5, a)] :=
+  .step _ _ _ (.there _ _ _ (.here _ _ _ rfl)) (.refl _)
 
 -- non-vacuity: 1,2,2,1,1 keeps 1,2,1; the key-level model agrees on a dataset with a legacy duplicate
 example : let a : Ent := ⟨1, false, [], "1"⟩; let b : Ent := ⟨1, false, [], "2"⟩
